@@ -355,7 +355,11 @@ class FileBufferedCollection(BufferedCollection):
                 issues[collection._filename] = err
         # Collections that remain buffered must stay registered even if some
         # files could not be flushed; otherwise they are never flushed again.
-        cls._buffered_collections = remaining_collections
+        # They are put back into the existing registry (rather than replacing
+        # it) so that collections registered by other threads in the meantime
+        # are not forgotten.
+        with cls._BUFFER_LOCK:
+            cls._buffered_collections.update(remaining_collections)
         if issues:
             raise BufferedError(issues)
 
